@@ -32,6 +32,9 @@ class Prop:
         an = [k for k, (f, props) in W.analyses.items() if self.id in props or k in self.extra_keys]
         return ks + ls + an
 
+    def wants(self, ob_name):
+        return True
+
     def ground(self, W, tier, seed):
         return []
 
